@@ -1456,13 +1456,38 @@ def np_max(I, st, args, kw, node):
     return T.sums.maximum(st, a)
 
 
+def _truthy(x):
+    if isinstance(x, bool):
+        return x
+    if isinstance(x, (int, float)):
+        return x != 0
+    if z3.is_bool(x):
+        return x
+    return x != 0
+
+
 @ext("numpy.any")
 def np_any(I, st, args, kw, node):
-    a = arr_of(st, args[0])
+    v = args[0]
+    if isinstance(v, Ref) and v.kind == "list" and "__symlen__" not in st.cell(v):
+        items = [_truthy(x) for x in st.cell(v)["__list__"]]
+        if any(x is True for x in items):
+            return True
+        items = [x for x in items if x is not False]
+        return z3.Or(*items) if items else False
+    a = arr_of(st, v)
+    if a is None:
+        return I.truth(v, st)
     if a.ndim != 1:
         raise Unsupported("any of n-d")
+    if isinstance(a.shape[0], int):
+        items = [_truthy(a.at(i)) for i in range(a.shape[0])]
+        if any(x is True for x in items):
+            return True
+        items = [x for x in items if x is not False]
+        return z3.Or(*items) if items else False
     q = fresh_scalar("int", "q")
-    return z3.Exists([q], z3.And(q >= 0, q < to_z3(a.shape[0], "int"), to_z3(a.at(q))))
+    return z3.Exists([q], z3.And(q >= 0, q < to_z3(a.shape[0], "int"), to_z3(_truthy(a.at(q)))))
 
 
 @ext("numpy.all")
